@@ -356,6 +356,7 @@ type SackCfg struct {
 	TruncTS   bool   `json:"trunc_ts,omitempty"`  // timestamps option with a short length
 	SynAckUs  int64  `json:"synack_us,omitempty"`
 	NoListen  bool   `json:"no_listen,omitempty"` // port closed
+	DropSyn   bool   `json:"drop_syn,omitempty"`  // the target silently drops the SYN (full accept queue): connect times out; real time only
 	ExtraSynAcks []SynAckNoise `json:"extra,omitempty"`
 }
 
@@ -371,11 +372,43 @@ type SackServer struct {
 	accepted []int
 	Accepts  int
 	Remotes  []netip.AddrPort
+	fillers  []net.Conn
 }
 
 // NewSackServer listens on addr (a 127/8 address) with an ephemeral or given port.
 func NewSackServer(addr netip.Addr, port uint16, cfg SackCfg) (*SackServer, error) {
 	s := &SackServer{Cfg: cfg}
+	if cfg.DropSyn {
+		fd, err := unix.Socket(unix.AF_INET, unix.SOCK_STREAM|unix.SOCK_NONBLOCK|unix.SOCK_CLOEXEC, 0)
+		if err != nil {
+			return nil, err
+		}
+		unix.SetsockoptInt(fd, unix.SOL_SOCKET, unix.SO_REUSEADDR, 1)
+		if err := unix.Bind(fd, &unix.SockaddrInet4{Port: int(port), Addr: addr.As4()}); err != nil {
+			unix.Close(fd)
+			return nil, err
+		}
+		if err := unix.Listen(fd, 0); err != nil {
+			unix.Close(fd)
+			return nil, err
+		}
+		sa, err := unix.Getsockname(fd)
+		if err != nil {
+			unix.Close(fd)
+			return nil, err
+		}
+		s.Addr = netip.AddrPortFrom(addr, uint16(sa.(*unix.SockaddrInet4).Port))
+		s.accepted = append(s.accepted, fd)
+		// fill the accept queue: once a connect times out, further SYNs are being dropped
+		for i := 0; i < 6; i++ {
+			c, err := net.DialTimeout("tcp4", s.Addr.String(), 60*time.Millisecond)
+			if err != nil {
+				break
+			}
+			s.fillers = append(s.fillers, c)
+		}
+		return s, nil
+	}
 	if cfg.NoListen {
 		// find a free port and leave it closed
 		ln, err := net.ListenTCP("tcp4", net.TCPAddrFromAddrPort(netip.AddrPortFrom(addr, port)))
@@ -487,6 +520,10 @@ func (s *SackServer) synAcks(n *NetWorld, remote netip.AddrPort) []Sched {
 
 // Close resets every accepted connection and closes the listener.
 func (s *SackServer) Close() {
+	for _, c := range s.fillers {
+		c.Close()
+	}
+	s.fillers = nil
 	for _, fd := range s.accepted {
 		unix.SetsockoptLinger(fd, unix.SOL_SOCKET, unix.SO_LINGER, &unix.Linger{Onoff: 1, Linger: 0})
 		unix.Close(fd)
